@@ -22,7 +22,8 @@ ASSUMPTIONS = ["a scenario whose written citations are not all extracted at thei
                "many may be skipped",
                "opinion window for 'pin cite within the opinion' is read from eyecite.resolve.MAX_OPINION_PAGE_COUNT"]
 FLOORS = {"quick": {"scenarios_decided": 3000, "ref:short": 1500, "ref:supra": 1500, "ref:id": 1500,
-                    "colliding_scenarios": 500, "must_stay_unresolved_ids": 500, "exhaustive_small": 2588, "bare_short_forms": 300, "id_range_pins": 300, "accented_names": 300},
+                    "colliding_scenarios": 500, "must_stay_unresolved_ids": 500, "exhaustive_small": 2588, "bare_short_forms": 300, "id_range_pins": 300, "accented_names": 300,
+                    "cases_with_variant_spellings": 800, "nominative_reporter_party_names": 200},
           "thorough": {"scenarios_decided": 200000, "ref:short": 100000, "ref:supra": 100000, "ref:id": 100000,
                        "colliding_scenarios": 50000, "must_stay_unresolved_ids": 50000,
                        "exhaustive_small": 20956}}
@@ -61,12 +62,46 @@ def accent(rng, w):
     return w
 
 
+_GROUPS = None
+NOMINATIVE_NAMES = ["Thompson", "Cooke", "Holmes", "Olcott", "Chase", "Gilmer", "Bee", "Deady", "Taney"]
+
+
+def spelling_groups():
+    """edition name -> every prose-safe spelling (edition name and variations) that the database relates
+    to that edition and to nothing else, for editions citable in the standard 'vol R page' form."""
+    global _GROUPS
+    if _GROUPS is None:
+        import re
+        rel = gen.DB.related
+        safe = lambda x: bool(re.fullmatch(r"[A-Za-z0-9 .&'()\-]+", x)) and not x.endswith(" at")  # noqa
+        g = {}
+        for en, v in gen.DB.pairs:     # editions citable as 'vol R page' (possibly among other templates)
+            if safe(en) and safe(v) and len(rel.get(en, ())) == 1 and rel.get(v) == rel.get(en):
+                g.setdefault(en, [en])
+                if v not in g[en]:
+                    g[en].append(v)
+        _GROUPS = {k: v for k, v in sorted(g.items()) if len(v) >= 2}
+    return _GROUPS
+
+
+def canon(rep):
+    rel = gen.DB.related.get(rep)
+    if rel and len(rel) == 1:
+        return next(iter(rel))[2]
+    return rep.replace(" ", "")
+
+
 def make_cases(rng, k, collide=None):
     used, cases = [], []
     for i in range(k):
         P = accent(rng, gen.word(rng, used, 3)); used.append(P)
-        D = accent(rng, gen.word(rng, used, 3)); used.append(D)
+        D = accent(rng, gen.word(rng, used, 3))
+        if rng.random() < 0.1 and not any(n in used for n in NOMINATIVE_NAMES):
+            # a party whose name is also the name of a nominative reporter ('Shapiro v. Thompson, 394 U.S. 618')
+            D = rng.choice(NOMINATIVE_NAMES)
+        used.append(D)
         forced_page = None
+        spell = None
         SERIES = {"F.2d": "F.3d", "F.3d": "F.2d", "A.2d": "A.3d", "N.E.2d": "N.E.3d", "P.2d": "P.3d", "S.W.2d": "S.W.3d",
                   "Cal. 3d": "Cal. 4th", "F. Supp. 2d": "F. Supp. 3d"}
         if cases and collide is None and rng.random() < 0.15 and cases[-1]["rep"] in SERIES:
@@ -76,18 +111,26 @@ def make_cases(rng, k, collide=None):
             forced_page = cases[-1]["page"] if rng.random() < 0.5 else None
         elif cases and (collide if collide is not None else rng.random() < 0.4):
             rep, vol = cases[-1]["rep"], cases[-1]["vol"]
+            spell = cases[-1]["spell"]
         else:
             while True:
                 rep, vol = rng.choice(REPS), rng.randint(1, 500)
-                if not any(c["rep"].replace(" ", "") == rep.replace(" ", "") and c["vol"] == vol for c in cases):
+                spell = None
+                if rng.random() < 0.3:
+                    # any reporter of the database, each citation of the case free to use any spelling that
+                    # the database relates to this edition only
+                    G = spelling_groups()
+                    rep = rng.choice(sorted(G))
+                    spell = G[rep]
+                if not any(canon(c["rep"]) == canon(rep) and c["vol"] == vol for c in cases):
                     break
         page = forced_page or rng.randint(1, 900)
         # distinct cases must be distinct documents: 'U. S.' is a spelling of 'U.S.', so compare the
         # reporter without blanks (two cases with equal normalised reporter, volume and page are one case)
-        nrep = lambda r: r.replace(" ", "")  # noqa
+        nrep = canon
         while any(nrep(c["rep"]) == nrep(rep) and c["vol"] == vol and abs(c["page"] - page) < 1 for c in cases):
             page += 1
-        cases.append(dict(P=P, D=D, rep=rep, vol=vol, page=page, cited=False))
+        cases.append(dict(P=P, D=D, rep=rep, vol=vol, page=page, cited=False, spell=spell or [rep]))
     return cases
 
 
@@ -105,7 +148,7 @@ class Scenario:
     def full(self, i):
         c, r = self.cases[i], self.rng
         lead = r.choice(LEAD)
-        core = f"{c['vol']} {c['rep']} {c['page']}"
+        core = f"{c['vol']} {r.choice(c['spell'])} {c['page']}"
         s = f"{lead}{c['P']} v. {c['D']}, "
         st = len(self.text) + len(s)
         s += core
@@ -123,7 +166,7 @@ class Scenario:
         name = r.choice([c["P"], c["D"]])
         s = f"{r.choice(LEAD)}{name}, "
         st = len(self.text) + len(s)
-        s += f"{c['vol']} {c['rep']}{r.choice(['', ','])} at {c['page'] + r.randint(0, 30)}"
+        s += f"{c['vol']} {r.choice(c['spell'])}{r.choice(['', ','])} at {c['page'] + r.randint(0, 30)}"
         self.text += s
         self.refs.append((st, "short", i, i))
         self.last = i
@@ -135,7 +178,7 @@ class Scenario:
         self.text += r.choice(FILL) + " "
         s = r.choice(["", "See "])
         st = len(self.text) + len(s)
-        s += f"{c['vol']} {c['rep']}{r.choice(['', ','])} at {c['page'] + r.randint(0, 30)}"
+        s += f"{c['vol']} {r.choice(c['spell'])}{r.choice(['', ','])} at {c['page'] + r.randint(0, 30)}"
         self.text += s
         self.refs.append((st, "short", i, i))
         self.bare = getattr(self, "bare", 0) + 1
@@ -144,7 +187,7 @@ class Scenario:
 
     def unique_rv(self, i):
         c = self.cases[i]
-        return not any(j != i and d["cited"] and d["rep"].replace(" ", "") == c["rep"].replace(" ", "") and d["vol"] == c["vol"]
+        return not any(j != i and d["cited"] and canon(d["rep"]) == canon(c["rep"]) and d["vol"] == c["vol"]
                        for j, d in enumerate(self.cases))
 
     def supra(self, i):
@@ -305,8 +348,10 @@ def judge(sc, rec, case):
     rec.count("scenarios_decided")
     rec.count("bare_short_forms", getattr(sc, "bare", 0))
     rec.count("id_range_pins", getattr(sc, "range_pins", 0))
+    rec.count("cases_with_variant_spellings", sum(1 for c in cases if c["cited"] and len(c["spell"]) > 1))
+    rec.count("nominative_reporter_party_names", sum(1 for c in cases if c["cited"] and c["D"] in NOMINATIVE_NAMES))
     rec.count("accented_names", sum(1 for c in cases for n in (c["P"], c["D"]) if not n.isascii()))
-    if len({(c["rep"].replace(" ", ""), c["vol"]) for c in cases if c["cited"]}) < sum(1 for c in cases if c["cited"]):
+    if len({(canon(c["rep"]), c["vol"]) for c in cases if c["cited"]}) < sum(1 for c in cases if c["cited"]):
         rec.count("colliding_scenarios")
     if any(r[1] != "full" for r in refs):
         rec.nontrivial(text)
